@@ -350,9 +350,13 @@ fn wsc_seeds() -> Vec<Vec<u8>> {
 }
 
 fn run_wal_segment(b: &[u8]) -> Dec {
-    match cw::recover_wal_segment_bytes(cw::WalSegmentId::from_raw(0), b, cw::RecoveryAccessMode::ReadOnly) {
-        Err(_) => Dec::Rejected,
-        Ok(_) => Dec::Accepted { reenc: b.to_vec(), law_a: Ok(()) },
+    // the caller names the segment it expects; real first segments carry id 1
+    let a = cw::recover_wal_segment_bytes(cw::WalSegmentId::from_raw(0), b, cw::RecoveryAccessMode::ReadOnly).is_ok();
+    let c = cw::recover_wal_segment_bytes(cw::WalSegmentId::from_raw(1), b, cw::RecoveryAccessMode::ReadOnly).is_ok();
+    if a || c {
+        Dec::Accepted { reenc: b.to_vec(), law_a: Ok(()) }
+    } else {
+        Dec::Rejected
     }
 }
 
@@ -447,7 +451,40 @@ pub fn codec_targets() -> Vec<Target> {
     t.push(Target { name: "wal.braid-shell-retention", law_b: true, run: wal_record!(cw::BraidShellRetentionRecord), alloc_cap: 0, seeds: vec![
         cw::BraidShellRetentionRecord { topology_intent_id: h(1), braid_id: h(2), shell_digest: h(3), material_digest: h(4), basis_digest: h(5), outcome_kind: cw::TopologyImportOutcomeKind::Plural, retention_posture_digest: h(6), witness_digest: h(7), idempotency_key_digest: opt }.to_payload_bytes(),
     ]});
+    t.push(Target { name: "wal.runtime-state-delta", law_b: true, run: run_wal_state_delta, alloc_cap: 0, seeds: vec![] });
+    // payloads a real host wrote (see livewal.rs): each becomes a seed of every WAL payload
+    // target whose decoder accepts it
+    let live = crate::livewal::live_wal_payloads();
+    if let (Some(segs), Some(tg)) = (live.get("__segment__"), t.iter_mut().find(|tg| tg.name == "wal.segment")) {
+        tg.seeds.extend(segs.iter().cloned());
+    }
+    for tg in t.iter_mut().filter(|tg| tg.name.starts_with("wal.") && tg.name != "wal.segment") {
+        for payloads in live.values() {
+            for p in payloads {
+                if matches!((tg.run)(p), Dec::Accepted { .. }) && !tg.seeds.contains(p) {
+                    tg.seeds.push(p.clone());
+                }
+            }
+        }
+    }
     t
+}
+
+fn run_wal_state_delta(b: &[u8]) -> Dec {
+    match cw::WalRuntimeStateDeltaRecord::from_payload_bytes(b) {
+        Err(_) => Dec::Rejected,
+        Ok(v) => match v.to_payload_bytes() {
+            Err(e) => Dec::Accepted { reenc: vec![], law_a: Err(format!("accepted record cannot be encoded: {e:?}")) },
+            Ok(e) => {
+                let law_a = match cw::WalRuntimeStateDeltaRecord::from_payload_bytes(&e) {
+                    Ok(v2) if v2.to_payload_bytes().ok().as_ref() == Some(&e) && format!("{v2:?}") == format!("{v:?}") => Ok(()),
+                    Ok(_) => Err("decode(encode(v)) differs from v".to_string()),
+                    Err(err) => Err(format!("encoder output rejected: {err:?}")),
+                };
+                Dec::Accepted { reenc: e, law_a }
+            }
+        },
+    }
 }
 
 /// Every byte-level entry point (C13, fuzz target): the codecs plus the host boundary.
